@@ -219,6 +219,8 @@ pub fn leaf_val_strategy(hostile: bool) -> BoxedStrategy<Val> {
             "2024-01-02T03:04:05+02:00".to_string(),
             "1999-12-31T23:59:59-05:00".to_string(),
             "2024-06-01T00:00:00.250+00:00".to_string(),
+            "2024-06-01T12:34:56.123456+02:00".to_string(),
+            "2001-02-03T04:05:06.123456789-03:30".to_string(),
         ])
         .prop_map(Val::Dt),
     ]
